@@ -36,7 +36,7 @@ FINDINGS = {
 # When a finding has been repaired in /repo by a "fix:" commit, remove its id here: its as-written model-checking run and its
 # classifier switch are then no longer used, so the failure is reported as a plain VIOLATION if it ever returns.
 # (VERIF_C09_FIXED=F3,LW,... does the same for one run: used to check a patched scratch copy of the repository.)
-ACTIVE = [f for f in ['F3', 'LW', 'CL', 'DR'] if f not in os.environ.get('VERIF_C09_FIXED', '').split(',')]
+ACTIVE = []      # F3 (fix: 54265d5), LW / CL / DR (fix: ddde88c) are repaired; the as-written configurations remain as witnesses in spec/
 # invariant of GoChannel.tla that each as-written deviation must violate
 MC_EXPECT = {'F3': 'DeliveredExactlyOnce', 'LW': 'ReleasedWhenPartnerExists', 'CL': 'ReleasedOnClose', 'DR': 'DrainAfterClose'}
 
